@@ -196,6 +196,11 @@ def gen_op(r, dw, weights, cfg):
         return {"op": "stimulate", "view": gen_node_view(r, ref), "len": cfg["L"], "seed": seed,
                 "two_d": r.random() < 0.35, "pattern": r.choice([None, None, "step"]), "bad_batch": r.random() < 0.03}
     if kind == "clamp":
+        if ref.syns and r.random() < cfg.get("p_syn_clamp", 0.0):
+            cands = [(s_["name"], k) for s_ in ref.syns for k in s_["states"]]
+            if cands:
+                syn, st = r.choice(cands)
+                return {"op": "clamp", "view": gen_edge_view(r, ref, syn), "state": st, "len": cfg["L"], "seed": seed, "two_d": r.random() < 0.3}
         states = ["v"]
         for name, c in ref.chans.items():
             states += list(c["states"])
